@@ -11,7 +11,7 @@ import ast
 import itertools
 from typing import Callable, Dict, List, Optional, Sequence
 
-from ..core.program import AnalysisError, FuncInfo, own_nodes, own_statements, norm
+from ..core.program import pos, AnalysisError, FuncInfo, own_nodes, own_statements, norm
 from ..core.world import world
 
 
@@ -244,7 +244,7 @@ def rule_tick_order(ctx):
                 on = n
             elif n.args[0].value == "note_off":
                 off = n
-    ctx.check(on is not None and off is not None and on.lineno < off.lineno, rule, "note_on filed before note_off", func=f,
+    ctx.check(on is not None and off is not None and pos(on) < pos(off), rule, "note_on filed before note_off", func=f,
               construct="on-off-order", msg="the note_on event must be appended before the note_off event of the same note")
     writer = [n for n in own_nodes(f.node) if isinstance(n, ast.For) and norm(n.iter).startswith("sorted(") and "keys()" in norm(n.iter)]
     ctx.require(writer, rule, f.qname, "track-writing loop not found")
@@ -764,7 +764,7 @@ def rule_groupby_sorted(ctx, modnames):
                             any(k.arg == "key" and key is not None and norm(k.value) == norm(key) for k in call.keywords)
                     ok = isinstance(src, ast.Call) and norm(src.func) == "sorted" and same_key(src)
                     if not ok and isinstance(src0, ast.Name):
-                        ok = any(isinstance(x, ast.Call) and norm(x.func) == f"{src0.id}.sort" and same_key(x) and x.lineno < c.lineno for x in own_nodes(f.node))
+                        ok = any(isinstance(x, ast.Call) and norm(x.func) == f"{src0.id}.sort" and same_key(x) and pos(x) < pos(c) for x in own_nodes(f.node))
                     ctx.check(ok, rule, f"{f.qname}: {norm(c)[:50]}", func=f, node=c, construct=f"groupby-unsorted:{f.name}",
                               msg=f"`{norm(c)[:80]}` groups consecutive rows only; its input is not sorted by the same key, so equal keys on non-adjacent "
                                   f"rows end up in different groups (chord notes with identical onset and duration get different voices)")
@@ -781,13 +781,13 @@ def rule_comask(ctx):
     for s in stmts:
         if isinstance(s, ast.Assign) and isinstance(s.targets[0], ast.Name) and isinstance(s.value, ast.Subscript) and isinstance(s.value.value, ast.Subscript) \
                 and "[:, " in norm(s.value.value.slice) and s.targets[0].id not in group:
-            group[s.targets[0].id] = s.lineno
+            group[s.targets[0].id] = pos(s)
     ctx.require(len(group) >= 3, rule, f.qname, f"parallel arrays not found: {sorted(group)}")
     refilters = {}
     for s in stmts:
-        if isinstance(s, ast.Assign) and isinstance(s.targets[0], ast.Name) and s.targets[0].id in group and s.lineno > group[s.targets[0].id] \
+        if isinstance(s, ast.Assign) and isinstance(s.targets[0], ast.Name) and s.targets[0].id in group and pos(s) > group[s.targets[0].id] \
                 and isinstance(s.value, ast.Subscript) and norm(s.value.value) == s.targets[0].id:
-            refilters.setdefault(s.targets[0].id, []).append((s.lineno, norm(s.value.slice), s))
+            refilters.setdefault(s.targets[0].id, []).append((max(pos(x) for x in ast.walk(s)), norm(s.value.slice), s))
     if not refilters:
         ctx.ok(rule, f"{sorted(group)}: none is filtered in place")
         return
@@ -796,11 +796,11 @@ def rule_comask(ctx):
         for other in group:
             if other == name:
                 continue
-            used_later = any(isinstance(x, ast.Name) and x.id == other and isinstance(x.ctx, ast.Load) and x.lineno > line for x in ast.walk(f.node))
+            used_later = any(isinstance(x, ast.Name) and x.id == other and isinstance(x.ctx, ast.Load) and pos(x) > line for x in ast.walk(f.node))
             same = any(i2 == idx for (_, i2, _) in refilters.get(other, []))
             # the mask itself may be computed from `other`
             in_mask = other in idx
-            ctx.check(not used_later or same or (in_mask and not any(isinstance(x, ast.Subscript) and norm(x.value) == other and x.lineno > line for x in ast.walk(f.node))),
+            ctx.check(not used_later or same or (in_mask and not any(isinstance(x, ast.Subscript) and norm(x.value) == other and pos(x) > line for x in ast.walk(f.node))),
                       rule, f"{other} co-filtered with {name}", func=f, node=node, construct=f"parallel-array-out-of-step:{other}",
                       msg=f"`{norm(node)}` filters `{name}` but `{other}` (sliced from the same matched-index table) is used afterwards unfiltered: indices "
                           f"computed on `{name}` then pick the wrong elements of `{other}` — each score onset is paired with the wrong performed notes")
@@ -874,10 +874,10 @@ def rule_counter_consecutive(ctx):
                    "(offset analysis of the one counter variable over all structured paths)")
     f = ctx.prog.func("partitura.score:add_measures", rule)
     ctor = [c for c in own_nodes(f.node) if isinstance(c, ast.Call) and norm(c.func) == "Measure" and any(k.arg == "number" for k in c.keywords)]
-    ctx.require(len(ctor) == 1, rule, f.qname, "Measure(number=...) not found")
-    numexpr = next(k.value for k in ctor[0].keywords if k.arg == "number")
-    ctx.require(isinstance(numexpr, ast.Name), rule, f.qname, "measure number is not a plain counter variable")
-    cnt = numexpr.id
+    ctx.require(len(ctor) >= 1, rule, f.qname, "Measure(number=...) not found")
+    numexprs = [next(k.value for k in c.keywords if k.arg == "number") for c in ctor]
+    ctx.require(all(isinstance(e, ast.Name) for e in numexprs) and len({e.id for e in numexprs}) == 1, rule, f.qname, "measure number is not one plain counter variable")
+    cnt = numexprs[0].id
     loop = None
     p = getattr(ctor[0], "_parent", None)
     while p is not None and p is not f.node:
@@ -1361,19 +1361,36 @@ def rule_ids_over_all_notes(ctx):
 
 def rule_destinations_deduplicated(ctx):
     rule = "DEDUP"
-    ctx.rule(rule, "add_segments: the plain jump destinations of a segment are de-duplicated (set) before they are ordered — Path reads "
-                   "that list positionally")
+    ctx.rule(rule, "add_segments: the plain jump destinations of a segment (neither volta nor navigation entries) are de-duplicated "
+                   "before they are ordered — Path reads that list positionally")
     f = ctx.prog.func("partitura.score:add_segments", rule)
     defs = local_defs(f)
-    # by role: the list that is sorted in place and filtered against the volta destinations
-    sorted_names = [c.func.value.id for c in own_nodes(f.node) if isinstance(c, ast.Call) and isinstance(c.func, ast.Attribute) and c.func.attr == "sort"
-                    and isinstance(c.func.value, ast.Name) and not c.args and not c.keywords]
-    cands = [n for n in sorted_names if any(isinstance(v, ast.ListComp) and any(isinstance(c, ast.Compare) and isinstance(c.ops[0], ast.NotIn) and "Volta" in norm(c)
-                                                                                 for i in v.generators[0].ifs for c in ast.walk(i)) for v in defs.get(n, []))]
-    ctx.require(len(cands) == 1, rule, f.qname, f"plain destination list not identified ({sorted_names})")
-    name = cands[0]
-    dedup = any(isinstance(v, ast.Call) and any(isinstance(c, ast.Call) and norm(c.func) in ("set", "dict.fromkeys", "np.unique") for c in ast.walk(v)) for v in defs[name])
-    ctx.check(dedup, rule, f"`{name}` passes through set()", func=f, construct="destinations-not-deduplicated",
+    # by role: the collection filled with the destinations that pass a `"Navigation" not in dest` filter —
+    # a comprehension with that filter, or `.append(dest)` / `.add(dest)` under that condition
+    cands = set()
+    for n, vs in defs.items():
+        for v in vs:
+            if isinstance(v, ast.ListComp) and any(isinstance(c, ast.Compare) and isinstance(c.ops[0], ast.NotIn) and "Navigation" in norm(c)
+                                                   for i_ in v.generators[0].ifs for c in ast.walk(i_)):
+                cands.add(n)
+    for c in own_nodes(f.node):
+        if isinstance(c, ast.Call) and isinstance(c.func, ast.Attribute) and c.func.attr in ("append", "add") and isinstance(c.func.value, ast.Name) and c.args:
+            conds = _path_conditions(c, f.node)
+            if any("Navigation" in k and " not in " in k for k in conds):
+                cands.add(c.func.value.id)
+    ctx.require(len(cands) == 1, rule, f.qname, f"plain destination collection not identified ({sorted(cands)})")
+    name = next(iter(cands))
+
+    def is_set_expr(v):
+        return any((isinstance(c, ast.Call) and norm(c.func) in ("set", "frozenset", "dict.fromkeys", "np.unique")) or isinstance(c, (ast.Set, ast.SetComp)) for c in ast.walk(v))
+    dedup = any(is_set_expr(v) for v in defs.get(name, []))
+    # `a, b, c = set(), [], []`
+    for s_ in own_nodes(f.node):
+        if isinstance(s_, ast.Assign) and isinstance(s_.targets[0], ast.Tuple) and isinstance(s_.value, ast.Tuple) and len(s_.targets[0].elts) == len(s_.value.elts):
+            for t, v in zip(s_.targets[0].elts, s_.value.elts):
+                if norm(t) == name and is_set_expr(v):
+                    dedup = True
+    ctx.check(dedup, rule, f"`{name}` is de-duplicated", func=f, construct="destinations-not-deduplicated",
               msg=f"`{name}` is no longer de-duplicated: a barline carrying two marks puts the same forward link into Segment.to twice and the unfolding, which "
                   f"consumes that list by position, skips a repeat")
 
@@ -1497,7 +1514,13 @@ def rule_renumber_every_part_fully(ctx):
     lp = part_loop(f)
     ctx.require(lp is not None, "ROUND-all", q, "loop over the parts not found")
     inner = [s for s in lp.body if isinstance(s, ast.For) and any(isinstance(t, ast.Subscript) and isinstance(t.ctx, ast.Store) for t in ast.walk(s))]
-    ctx.require(len(inner) >= 3, "ROUND-all", q, f"only {len(inner)} renumbering loops found (notes, controls, programs expected)")
+    # the collections the renumbering loops range over: `for n in ppart.notes`, or one loop over chain(ppart.notes, ppart.controls, ..)
+    attrs = set()
+    for s in inner:
+        it = s.iter
+        parts = list(it.args) if isinstance(it, ast.Call) and norm(it.func).split(".")[-1] == "chain" else [it]
+        attrs |= {a.attr for a in parts if isinstance(a, ast.Attribute)}
+    ctx.require({"notes", "controls", "programs"} <= attrs, "ROUND-all", q, f"renumbering loops cover {sorted(attrs)} (notes, controls, programs expected)")
     for s in inner:
         rule_every_round_passes(ctx, q, part_loop, lambda fi, l, s=s: s, f"every part renumbers `{norm(s.iter)[:20]}`",
                                 f"some path through the loop over the parts skips the renumbering of `{norm(s.iter)}`: that part keeps its old track numbers "
